@@ -64,6 +64,8 @@ class Prop(common.PropertyCheck):
                 rows[-1]['units'][1] = rng.choice(['a.u.', 'RFI', 'Channel'])
                 # every event of the last row was recorded at the same clock tick: its acquisition time is exactly zero
                 rows[-1]['time_order'] = 'const'
+                # a large sample with two non-positive events among thousands (the share of positive events rounds to 100.0 %): the note is written all the same
+                rows.append({'iid': 'FC001', 'units': ['a.u.', 'RFI', None], 'gf': 1.0, 'nonneg': True, 'scatter_out': False, 'n': 5000, 'few_nonpos': True})
             if i % 2 == 1:
                 rows[-1]['n'] = 400        # exactly the documented minimum number of events: analysed like any other file
 
@@ -99,7 +101,7 @@ class Prop(common.PropertyCheck):
             fl = ex.inst[iid]['fl']
             fn = 's%d.fcs' % j
             ex.write_fcs(fn, iid, n=r.get('n', 700), voltage=450, seed=case['seed'] % 1000 + 10 + j, nonneg=r['nonneg'], scatter_out=r.get('scatter_out', False), time_order=r.get('time_order', 'sorted'),
-                         voltages=r.get('volt_other'))
+                         voltages=r.get('volt_other'), few_nonpos=r.get('few_nonpos', False))
             units = {}
             for c, u in zip(fl, r['units']):
                 cal = ('FL1', 'FL3') if iid == 'FC001' else ('GFP-A',)
@@ -219,6 +221,24 @@ class Prop(common.PropertyCheck):
                 out['rows'].append(rowout)
             return out
         out = analyse()
+        if case['datatype'] == 'I':
+            # the same table processed through the API without the optional beads table (only the transformation functions are given): the same samples
+            with warnings.catch_warnings():
+                warnings.simplefilter('ignore')
+                res_a = FlowCal.excel_ui.process_samples_table(samples_table, inst, mef_transform_fxns=fx, beads_table=beads_table, base_dir=ex.dir)
+                res_b = FlowCal.excel_ui.process_samples_table(samples_table, inst, mef_transform_fxns=fx, base_dir=ex.dir)
+            for sid in res_a:
+                a, b = res_a[sid], res_b[sid]
+                if isinstance(a, Exception) or isinstance(b, Exception):
+                    same = isinstance(a, Exception) and isinstance(b, Exception)
+                else:
+                    fa, fb = fpm.sample_fp(a), fpm.sample_fp(b)
+                    same = fa['array'] == fb['array'] and fa['state'] == fb['state']
+                if not same:
+                    for r in out['rows']:
+                        if r['sid'] == sid:
+                            r.setdefault('problems', []).append('processed without the optional beads table the row gives another sample than with it (%s)' % (
+                                'one of them is an error' if isinstance(a, Exception) or isinstance(b, Exception) else 'events or metadata differ'))
         if case.get('rewrite'):
             # the first sample file is replaced by another acquisition of the same size at the same path; the analysis is run again in this process
             f0 = facts[0]
